@@ -373,11 +373,19 @@ func c06Check(c *core.Ctx, e *liquid.Engine, seq []ref.Sym, kind string) {
 	// a node that holds no text (an empty raw block, or whatever the engine leaves behind for a comment block so that
 	// whitespace control stops there) is no part of the nesting
 	want, got := strings.ReplaceAll(refShape(tree, seq), "R[];", ""), strings.ReplaceAll(engShape(tpl.GetRoot()), "R[];", "")
-	want, got = strings.ReplaceAll(want, "›;T‹", "›‹"), strings.ReplaceAll(got, "›;T‹", "›‹")
 	if strings.Contains(got, "R[*];") {
-		want = regexp.MustCompile(`R\[[^\]]*\];`).ReplaceAllString(want, "R[*];")
+		// the text of raw nodes cannot be read (another field layout): a raw node may then be a raw block or the empty node
+		// of a comment, so raw nodes are left out of both shapes; the marker renders below still see every raw body
+		reRawNode := regexp.MustCompile(`R\[[^\]]*\];`)
+		want, got = reRawNode.ReplaceAllString(want, ""), reRawNode.ReplaceAllString(got, "")
+		c.Obs("tree_shape_without_raw_nodes", 1)
 	}
-	if want != got {
+	want, got = strings.ReplaceAll(want, "›;T‹", "›‹"), strings.ReplaceAll(got, "›;T‹", "›‹")
+	if strings.Contains(got, "?") {
+		// a node type this harness does not know (the tree is the engine's own business): the shape is not compared, the
+		// marker renders below decide
+		c.Obs("tree_shape_not_comparable", 1)
+	} else if want != got {
 		c.Violate("tree-shape", "the parsed tree does not mirror the textual nesting", map[string]any{"source": src, "expected_tree": want, "observed_tree": got})
 		return
 	}
